@@ -402,6 +402,78 @@ int main(int argc, char ** argv) {
             if (i < 0) break;
         }
     }
+    {   /* well-formed lists of 1..1000 items, read one by one and as an array: every item is delivered, nothing is raised */
+        static const int counts[] = {1, 5, 100, 255, 256, 257, 300, 512, 513, 1000};
+        static tc_t TL;
+        int ci, form;
+        tc_init(&TL, cmds, 8192, 8);
+        for (ci = 0; ci < 10; ci++) for (form = 0; form < 2; form++) {
+            char * msg = (char *) malloc(8192);
+            int n = counts[ci], k, ml = 0;
+            if (!MC_CASE()) { free(msg); continue; }
+            mc_case_tag = "long-list"; mc_case_i[0] = n; mc_case_i[1] = form;
+            ml += sprintf(msg + ml, "CMD ");
+            for (k = 0; k < n; k++) ml += sprintf(msg + ml, form ? "%s%d" : "%s%d", k ? (form ? " , " : ",") : "", (k * 7) % 1000);
+            msg[ml] = 0;
+            {   /* parse the list with the typed reader directly on a parameter cursor, as a handler would */
+                lex_state_t * ls = &TL.ctx.param_list.lex_state; int got = 0, bad = 0; int32_t v;
+                tr_reset();
+                ls->buffer = msg + 4; ls->pos = msg + 4; ls->len = ml - 4; TL.ctx.input_count = 0; TL.ctx.cmd_error = FALSE;
+                while (got < 1100 && SCPI_ParamInt32(&TL.ctx, &v, FALSE)) { if (v != (got * 7) % 1000) bad++; got++; }
+                n_cases++;
+                if (got != n || bad || tc_nerr) mc_viol("c05/value-or-acceptance/long-list", "well-formed list of %d integers (separator [%s]): %d delivered, %d wrong, %d errors (first %d)", n, form ? " , " : ",", got, bad, tc_nerr, tc_nerr ? tc_errs[0] : 0);
+                else n_wellformed++;
+            }
+            free(msg);
+        }
+        tc_free(&TL);
+    }
+    {   /* the same units while the error queue is already full (every further error replaces the newest entry by -350):
+         * the per-unit accounting must not depend on the fill level of the queue */
+        static tc_t TF;
+        static const struct { const char * msg; const char * exp; int res; } fq[] = {
+            {"CMD 1,2\n", "H;X0;E-108;", 0}, {"CMD\n", "H;X0;", 1}, {"ZZ\n", "E-113;", 0},
+        };
+        int k, fill;
+        tc_init(&TF, cmds, 64, 2);
+        for (fill = 0; fill <= 3; fill++) for (k = 0; k < 3; k++) {
+            int f; scpi_bool_t r;
+            char got[256]; size_t o = 0; const char * t;
+            if (!MC_CASE()) continue;
+            mc_case_tag = "full-queue"; mc_case_i[0] = fill; mc_case_i[1] = k;
+            tc_reinit(&TF, cmds); nsig = 0; h_ret_err = 0; h_stop = 0;
+            for (f = 0; f < fill; f++) SCPI_ErrorPush(&TF.ctx, -222);
+            tr_reset();
+            r = SCPI_Input(&TF.ctx, fq[k].msg, (int) strlen(fq[k].msg));
+            n_cases++;
+            for (t = TR; *t; ) { if (!strncmp(t, "E-350;", 6)) { t += 6; continue; } got[o++] = *t++; }      /* the overflow marker is the queue's business (C10) */
+            got[o] = 0;
+            if (strcmp(got, fq[k].exp) || (r ? 1 : 0) != fq[k].res)
+                mc_viol("c05/error-accounting-depends-on-queue-fill", "%d errors queued before (capacity 2), message [%s]: trace [%s] result %d, expected [%s] result %d", fill, mc_es(fq[k].msg), mc_es(TR), (int) r, fq[k].exp, fq[k].res);
+            else n_wellformed++;
+        }
+        /* and with handler signatures that use optional parameters / fail silently */
+        for (fill = 0; fill <= 3; fill += 3) {
+            int v;
+            for (v = 0; v < 3; v++) {
+                int f; scpi_bool_t r; char got[256]; size_t o = 0; const char * t;
+                static const char * m3[] = {"CMD \"abc\"\n", "CMD\n", "CMD 5\n"};
+                static const char * e3[] = {"H;E-104;r0;X0;", "H;E-109;r0;X1;", "H;r1=5;X1;E-200;"};
+                if (!MC_CASE()) continue;
+                mc_case_tag = "full-queue-2"; mc_case_i[0] = fill; mc_case_i[1] = v;
+                tc_reinit(&TF, cmds); nsig = 1; sig[0].reader = R_INT32; sig[0].mandatory = v == 1; h_ret_err = v >= 1; h_stop = 0;
+                for (f = 0; f < fill; f++) SCPI_ErrorPush(&TF.ctx, -222);
+                tr_reset();
+                r = SCPI_Input(&TF.ctx, m3[v], (int) strlen(m3[v]));
+                n_cases++;
+                for (t = TR; *t; ) { if (!strncmp(t, "E-350;", 6)) { t += 6; continue; } got[o++] = *t++; }
+                got[o] = 0;
+                if (strcmp(got, e3[v]) || r) mc_viol("c05/error-accounting-depends-on-queue-fill", "%d errors queued before (capacity 2), signature {Int32%s} ret=%s message [%s]: trace [%s] result %d, expected [%s] result 0", fill, v == 1 ? "!" : "?", v ? "ERR" : "OK", mc_es(m3[v]), mc_es(TR), (int) r, e3[v]);
+                else n_wellformed++;
+            }
+        }
+        tc_free(&TF);
+    }
     if (mc_shard == 0) {
         mc_sample("signature {Int32!, Choice?} handler OK: message [CMD 1 , XYZ\\n] -> r1=1; E-224 r0; result FALSE");
         mc_sample("signature {Number!} message [CMD 1 ZZ\\n] -> E-131; message [CMD \"s\"\\n] -> E-104");
